@@ -1,8 +1,14 @@
 import Acra.Gen.Src.Init
 import Acra.Model.Search
 import Acra.Lemmas.SrcTieSwap
+import Acra.Gen.Src.SamDec008
+import Acra.Gen.Src.H264
+import Acra.Lemmas.SrcTieSearch
+import Acra.Lemmas.KMP
+import Acra.Lemmas.Search
+set_option linter.unusedSimpArgs false
 namespace Acra.Props.C17
-open Acra Acra.Py Acra.Lemmas.SrcTieSwap
+open Acra Acra.Py Acra.Lemmas.SrcTieSwap Acra.Lemmas.SrcTieSearch
 
 /-! Source tie (C17): `AcraNetwork.endianness_swap`, regenerated from the current Python source by
     `harness/translate.py` on every run (see `Props/C07/SrcTie.lean`). -/
@@ -53,5 +59,303 @@ example : Gen.Src.Init.endianness_swap [1, 2, 3, 4] 2 = .ok [2, 1, 4, 3] := by r
 example : Gen.Src.Init.endianness_swap [1, 2, 3, 4] 4 = .ok [4, 3, 2, 1] := by rfl
 example : Gen.Src.Init.endianness_swap [1, 2, 3] 0 = .error .zeroDiv := by rfl
 example : Gen.Src.Init.endianness_swap [1, 2, 3] (-3) = .error .generic := by rfl
+
+/-! ### the search algorithms: `KMP.partial`, `KMP.search`, both copies of Horspool -/
+
+/-- `KMP.partial` as written today = the model `kmpPartial`, for EVERY pattern (the empty one too: `[0]`), results as
+    Python ints.  The theorem includes termination of the fall-back `while` within the fuel `j + 1` wherever the model
+    terminates (everywhere: `KMP_partial_failure_table`). -/
+theorem src_KMP_partial (p : Bytes) :
+    Gen.Src.Init.KMP_partial p = (Model.Search.kmpPartial p).map (List.map Int.ofNat) := by
+  unfold Gen.Src.Init.KMP_partial Model.Search.kmpPartial
+  have hr : Py.range2 1 (Py.len p) =
+      (List.range (p.drop 1).length).map (fun (k : Nat) => ((1 : Nat) : Int) + (k : Int)) := by
+    unfold Py.range2 Py.len
+    have : ((p.length : Int) - 1).toNat = (p.drop 1).length := by simp
+    rw [this]; rfl
+  rw [hr]
+  rw [bind_ok_self]
+  refine partialLoop_tie p _ (fun ret i c hi hpi => ?_) (p.drop 1) 1 [0] rfl (by omega)
+  have hi1 : (i : Int) - 1 = ((i - 1 : Nat) : Int) := by omega
+  simp only [hi1, getItem_nat]
+  unfold partialStep
+  cases ret[i - 1]? with
+  | none => rfl
+  | some j =>
+    simp only [liftN_some, bind, Except.bind, toNat_succ]
+    rw [fall_tie p ret c _ _ ?hc ?hb]
+    case hc =>
+      intro j
+      simp only [getByte_nat, hpi, liftB_some]
+      by_cases hj : j > 0
+      · have hj' : (j : Int) > 0 := by omega
+        rw [if_pos hj, if_pos hj']
+        cases p[j]? with
+        | none => rfl
+        | some x => simp only [liftB_some, decide_eq_decide.mpr (u8_ne_iff x c)]
+      · have hj' : ¬ (j : Int) > 0 := by omega
+        rw [if_neg hj, if_neg hj']
+    case hb =>
+      intro j hj
+      have hj1 : (j : Int) - 1 = ((j - 1 : Nat) : Int) := by omega
+      simp only [hj1, getItem_nat]
+      cases ret[j - 1]? <;> rfl
+    cases Model.Search.kmpFall p ret c (j + 1) j with
+    | error e => rfl
+    | ok j2 =>
+      simp only [Except.map, Int.ofNat_eq_natCast, getByte_nat, hpi, liftB_some]
+      cases p[j2]? with
+      | none => rfl
+      | some x =>
+        simp only [liftB_some, u8_eq_iff, List.map_append, List.map_cons, List.map_nil, beq_iff_eq]
+        by_cases hx : x = c
+        · simp only [hx, if_true]; rfl
+        · simp only [hx, if_false]; rfl
+
+/-- `KMP.search` as written today = the model `kmpSearch`, for EVERY text and pattern (non-empty pattern: the list of
+    offsets; empty pattern: IndexError on a non-empty text, `[]` on the empty text), including termination of the
+    fall-back loop within its fuel. -/
+theorem src_KMP_search (t p : Bytes) :
+    Gen.Src.Init.KMP_search t p = Model.Search.kmpSearch t p := by
+  unfold Gen.Src.Init.KMP_search Model.Search.kmpSearch
+  rw [src_KMP_partial]
+  cases Model.Search.kmpPartial p with
+  | error e => rfl
+  | ok tbl =>
+    have hr : Py.range (Py.len t) =
+        (List.range t.length).map (fun (k : Nat) => ((0 : Nat) : Int) + (k : Int)) := by
+      unfold Py.range Py.len
+      simp
+    simp only [Except.map]
+    rw [ok_bind]
+    rw [hr, bind_ok_snd]
+    refine searchLoop_tie t p tbl _ (fun j ret i c hti => ?_) t 0 0 [] rfl
+    simp only [toNat_succ, byteAt_nat t i c hti]
+    rw [fall_tie p tbl c _ _ ?hc ?hb]
+    case hc =>
+      intro j
+      simp only [getByte_nat]
+      by_cases hj : j > 0
+      · have hj' : (j : Int) > 0 := by omega
+        rw [if_pos hj, if_pos hj']
+        cases p[j]? with
+        | none => rfl
+        | some x =>
+          simp only [liftB_some, ok_bind, decide_eq_decide.mpr ((u8_ne_iff c x).trans ne_comm)]
+      · have hj' : ¬ (j : Int) > 0 := by omega
+        rw [if_neg hj, if_neg hj']
+    case hb =>
+      intro j hj
+      have hj1 : (j : Int) - 1 = ((j - 1 : Nat) : Int) := by omega
+      simp only [hj1, getItem_nat]
+      cases tbl[j - 1]? <;> rfl
+    unfold searchStep
+    cases Model.Search.kmpFall p tbl c (j + 1) j with
+    | error e => rfl
+    | ok j2 =>
+      simp only [Except.map, ok_bind, Int.ofNat_eq_natCast, getByte_nat]
+      cases hpj : p[j2]? with
+      | none => rfl
+      | some x =>
+        simp only [liftB_some, ok_bind, u8_eq_iff, beq_iff_eq]
+        have hlt : j2 < p.length := (List.getElem?_eq_some_iff.mp hpj).1
+        have hJ : (if c = x then (j2 : Int) + 1 else (j2 : Int)) = ((if c = x then j2 + 1 else j2 : Nat) : Int) := by
+          split <;> simp
+        rw [hJ]
+        generalize hJdef : (if c = x then j2 + 1 else j2) = J
+        have hJ1 : J = p.length → 1 ≤ J := by intro h; split at hJdef <;> omega
+        by_cases hJp : J = p.length
+        · have h1 : (J : Int) = Py.len p := by unfold Py.len; omega
+          have hj1 : (J : Int) - 1 = ((J - 1 : Nat) : Int) := by have := hJ1 hJp; omega
+          have hget : getItem (tbl.map Int.ofNat) ((J : Int) - 1) = liftN tbl[J - 1]? := by rw [hj1, getItem_nat]
+          rw [if_pos h1, if_pos hJp, hget]
+          cases tbl[J - 1]? with
+          | none => rfl
+          | some j' =>
+            -- the offset `i - (j - 1)`, however it is written (`i - j + 1` …): linear arithmetic
+            first
+              | rfl
+              | (simp only [liftN_some, ok_bind, Except.map]
+                 refine congrArg Except.ok (Prod.ext rfl (congrArg (fun x => ret ++ [x]) ?_))
+                 show _ = _
+                 omega)
+        · have h1 : ¬ (J : Int) = Py.len p := by unfold Py.len; omega
+          rw [if_neg h1, if_neg hJp]; rfl
+
+/-- the completeness theorem of the model transfers to the SOURCE: `KMP().search(T, P)` as written today returns
+    exactly the ascending list of all (possibly overlapping) occurrences, for every text and non-empty pattern -/
+theorem src_KMP_search_all_occurrences (t p : Bytes) (hp : p ≠ []) :
+    Gen.Src.Init.KMP_search t p = .ok ((Spec.occ t p).map Int.ofNat) := by
+  rw [src_KMP_search]; exact Lemmas.KMP.kmpSearch_eq_occ t p hp
+
+/-- … and `KMP().partial(P)` as written today is the failure table (longest proper borders) -/
+theorem src_KMP_partial_failure_table (p : Bytes) (hp : p ≠ []) :
+    ∃ tbl : List Nat, Gen.Src.Init.KMP_partial p = .ok (tbl.map Int.ofNat) ∧ tbl.length = p.length ∧
+      ∀ k, k < p.length → ∃ b, tbl[k]? = some b ∧ b < k + 1 ∧
+        p.take b <:+ p.take (k + 1) ∧
+        ∀ b', b' < k + 1 → p.take b' <:+ p.take (k + 1) → b' ≤ b := by
+  obtain ⟨tbl, h1, h2, h3⟩ := Lemmas.KMP.kmpPartial_spec p hp
+  refine ⟨tbl, by rw [src_KMP_partial, h1]; rfl, h2, ?_⟩
+  intro k hk
+  obtain ⟨b, hb1, hb2, hb3, hb4⟩ := h3 k hk
+  exact ⟨b, hb1, hb2, hb3.2, fun b' hb' hs => hb4 b' hb' ⟨by omega, hs⟩⟩
+
+example : ([97, 98, 97] : Bytes) ≠ [] := by decide
+example : Gen.Src.Init.KMP_search [97, 98, 97, 98, 98, 97, 98, 97, 98, 97] [97, 98, 97] = .ok [0, 5, 7] := by rfl
+example : Gen.Src.Init.KMP_partial [97, 98, 97, 98, 97, 99] = .ok [0, 0, 1, 2, 3, 0] := by rfl
+/-- outside the domain of the corollaries (empty pattern): IndexError on a non-empty text, `[]` on the empty text -/
+example : Gen.Src.Init.KMP_search [7] [] = .error .index := by rfl
+example : Gen.Src.Init.KMP_search [] [] = .ok [] := by rfl
+
+/-- `string_matching_boyer_moore_horspool` of SamDec008.py as written today = the model `bmh`, for EVERY text and
+    pattern: `[]` when the pattern is longer than the text, the offsets for a non-empty pattern, and outside the domain
+    (empty pattern) IndexError on the empty text / `Err.fuel` (the Python loop never ends) on a non-empty one.
+    Includes termination of both `while` loops within their fuels wherever the model terminates. -/
+theorem src_bmh_samdec (text pat : Bytes) :
+    Gen.Src.SamDec008.string_matching_boyer_moore_horspool text pat = Model.Search.bmh text pat := by
+  unfold Gen.Src.SamDec008.string_matching_boyer_moore_horspool Model.Search.bmh
+  simp only [Py.len]
+  by_cases hmn : pat.length > text.length
+  · have h' : (pat.length : Int) > (text.length : Int) := by omega
+    rw [if_pos h', if_pos hmn]
+  · have h' : ¬ (pat.length : Int) > (text.length : Int) := by omega
+    rw [if_neg h', if_neg hmn]
+    have h256 : List.foldl (fun (skip : List Int) (k : Int) => skip ++ [(pat.length : Int)]) [] (Py.range 256) =
+        (List.replicate 256 pat.length).map Int.ofNat := by
+      rw [foldl_append_const, show (Py.range 256).length = 256 from range_length 256, List.nil_append,
+        List.map_replicate]; rfl
+    have hrange : Py.range ((pat.length : Int) - 1) = (List.range (pat.length - 1)).map Int.ofNat := by
+      unfold Py.range
+      have : ((pat.length : Int) - 1).toNat = pat.length - 1 := by omega
+      rw [this]
+    have hfuel1 : ((text.length : Int) + 1).toNat = text.length + 1 := by omega
+    have hfuel2 : ((pat.length : Int) - 1 + 2).toNat = pat.length + 1 := by omega
+    -- the initial table, built by 256 appends or as `[m] * 256`
+    first
+      | rw [h256]
+      | rw [replicate_nat 256 256 rfl pat.length]
+    rw [hrange, hfuel1, hfuel2,
+      skipLoop_tie pat _ ?hG (List.range (pat.length - 1)) (List.replicate 256 pat.length) List.length_replicate
+        (fun k hk => List.mem_range.mp hk), ← bmhSkip_eq, ok_bind, bind_ok_fst]
+    case hG =>
+      intro sk k hs hk
+      obtain ⟨c, hc⟩ : ∃ c, pat[k]? = some c := ⟨pat[k]'(by omega), List.getElem?_eq_getElem _⟩
+      -- the shift `m - k - 1`, however it is written
+      have e1 : (pat.length : Int) - (k : Int) - 1 = ((pat.length - k - 1 : Nat) : Int) := by omega
+      have e2 : (pat.length : Int) - 1 - (k : Int) = ((pat.length - k - 1 : Nat) : Int) := by omega
+      simp only [getByte_nat, hc, liftB_some, ok_bind, e1, e2]
+      -- the store: raising (`Py.setItem`, table of unknown length) or total (`Py.setAt`, length 256 known)
+      first
+        | rw [setItem_nat _ _ _ (by rw [hs]; exact c.toNat_lt), ok_bind]
+        | rw [setAt_nat]
+      unfold skipStep; rw [hc]
+    refine outer_tie text pat (Model.Search.bmhSkip pat) _ _ (fun offs k => rfl) (fun offs k => ?_)
+      (text.length + 1) ((pat.length : Int) - 1) []
+    simp only []
+    rw [inner_tie text pat _ _ (fun j i => rfl) (fun j i => rfl) pat.length k]
+    unfold outerStep
+    cases Model.Search.bmhInner text pat pat.length k with
+    | error e => rfl
+    | ok r =>
+      obtain ⟨j1, i⟩ := r
+      simp only [Except.map, ok_bind, getByte_pyIdx]
+      cases Model.Search.pyIdx text k with
+      | none => rfl
+      | some c =>
+        -- the table has 256 cells, so `skip[text[k]]` (raising `getItem`, or total `intAt` when the length is known
+        -- to the translator) is the model's cell
+        obtain ⟨s, hs⟩ : ∃ s, (Model.Search.bmhSkip pat)[c.toNat]? = some s :=
+          ⟨_, List.getElem?_eq_getElem (by rw [bmhSkip_length]; exact c.toNat_lt)⟩
+        simp only [liftB_some, ok_bind, getItem_nat, hs, liftN_some, intAt_nat _ _ _ hs, beq_iff_eq]
+        by_cases hj : j1 = 0
+        · subst hj; rfl
+        · have : ¬ ((j1 : Int) - 1 = -1) := by omega
+          rw [if_neg this, if_neg hj]
+
+/-- `string_matching_boyer_moore_horspool` of MPEG/H264.py (the second copy; its `if PY3:` tests are
+    resolved to the Python-3 branch by the translator, see the note in the generated file) as written today = the model `bmh`, for EVERY text and
+    pattern: `[]` when the pattern is longer than the text, the offsets for a non-empty pattern, and outside the domain
+    (empty pattern) IndexError on the empty text / `Err.fuel` (the Python loop never ends) on a non-empty one.
+    Includes termination of both `while` loops within their fuels wherever the model terminates. -/
+theorem src_bmh_h264 (text pat : Bytes) :
+    Gen.Src.H264.string_matching_boyer_moore_horspool text pat = Model.Search.bmh text pat := by
+  unfold Gen.Src.H264.string_matching_boyer_moore_horspool Model.Search.bmh
+  simp only [Py.len]
+  by_cases hmn : pat.length > text.length
+  · have h' : (pat.length : Int) > (text.length : Int) := by omega
+    rw [if_pos h', if_pos hmn]
+  · have h' : ¬ (pat.length : Int) > (text.length : Int) := by omega
+    rw [if_neg h', if_neg hmn]
+    have h256 : List.foldl (fun (skip : List Int) (k : Int) => skip ++ [(pat.length : Int)]) [] (Py.range 256) =
+        (List.replicate 256 pat.length).map Int.ofNat := by
+      rw [foldl_append_const, show (Py.range 256).length = 256 from range_length 256, List.nil_append,
+        List.map_replicate]; rfl
+    have hrange : Py.range ((pat.length : Int) - 1) = (List.range (pat.length - 1)).map Int.ofNat := by
+      unfold Py.range
+      have : ((pat.length : Int) - 1).toNat = pat.length - 1 := by omega
+      rw [this]
+    have hfuel1 : ((text.length : Int) + 1).toNat = text.length + 1 := by omega
+    have hfuel2 : ((pat.length : Int) - 1 + 2).toNat = pat.length + 1 := by omega
+    -- the initial table, built by 256 appends or as `[m] * 256`
+    first
+      | rw [h256]
+      | rw [replicate_nat 256 256 rfl pat.length]
+    rw [hrange, hfuel1, hfuel2,
+      skipLoop_tie pat _ ?hG (List.range (pat.length - 1)) (List.replicate 256 pat.length) List.length_replicate
+        (fun k hk => List.mem_range.mp hk), ← bmhSkip_eq, ok_bind, bind_ok_fst]
+    case hG =>
+      intro sk k hs hk
+      obtain ⟨c, hc⟩ : ∃ c, pat[k]? = some c := ⟨pat[k]'(by omega), List.getElem?_eq_getElem _⟩
+      -- the shift `m - k - 1`, however it is written
+      have e1 : (pat.length : Int) - (k : Int) - 1 = ((pat.length - k - 1 : Nat) : Int) := by omega
+      have e2 : (pat.length : Int) - 1 - (k : Int) = ((pat.length - k - 1 : Nat) : Int) := by omega
+      simp only [getByte_nat, hc, liftB_some, ok_bind, e1, e2]
+      -- the store: raising (`Py.setItem`, table of unknown length) or total (`Py.setAt`, length 256 known)
+      first
+        | rw [setItem_nat _ _ _ (by rw [hs]; exact c.toNat_lt), ok_bind]
+        | rw [setAt_nat]
+      unfold skipStep; rw [hc]
+    refine outer_tie text pat (Model.Search.bmhSkip pat) _ _ (fun offs k => rfl) (fun offs k => ?_)
+      (text.length + 1) ((pat.length : Int) - 1) []
+    simp only []
+    rw [inner_tie text pat _ _ (fun j i => rfl) (fun j i => rfl) pat.length k]
+    unfold outerStep
+    cases Model.Search.bmhInner text pat pat.length k with
+    | error e => rfl
+    | ok r =>
+      obtain ⟨j1, i⟩ := r
+      simp only [Except.map, ok_bind, getByte_pyIdx]
+      cases Model.Search.pyIdx text k with
+      | none => rfl
+      | some c =>
+        -- the table has 256 cells, so `skip[text[k]]` (raising `getItem`, or total `intAt` when the length is known
+        -- to the translator) is the model's cell
+        obtain ⟨s, hs⟩ : ∃ s, (Model.Search.bmhSkip pat)[c.toNat]? = some s :=
+          ⟨_, List.getElem?_eq_getElem (by rw [bmhSkip_length]; exact c.toNat_lt)⟩
+        simp only [liftB_some, ok_bind, getItem_nat, hs, liftN_some, intAt_nat _ _ _ hs, beq_iff_eq]
+        by_cases hj : j1 = 0
+        · subst hj; rfl
+        · have : ¬ ((j1 : Int) - 1 = -1) := by omega
+          rw [if_neg this, if_neg hj]
+
+/-- the completeness theorem of the model transfers to the SOURCE: both copies of Horspool return exactly the ascending
+    list of all (possibly overlapping) occurrences, for every text and every non-empty pattern -/
+theorem src_bmh_samdec_all_occurrences (text pat : Bytes) (hp : pat ≠ []) :
+    Gen.Src.SamDec008.string_matching_boyer_moore_horspool text pat = .ok ((Spec.occ text pat).map Int.ofNat) := by
+  rw [src_bmh_samdec]; exact Lemmas.Search.bmh_eq_occ text pat hp
+
+theorem src_bmh_h264_all_occurrences (text pat : Bytes) (hp : pat ≠ []) :
+    Gen.Src.H264.string_matching_boyer_moore_horspool text pat = .ok ((Spec.occ text pat).map Int.ofNat) := by
+  rw [src_bmh_h264]; exact Lemmas.Search.bmh_eq_occ text pat hp
+
+example : ([97, 98, 97] : Bytes) ≠ [] := by decide
+example : Gen.Src.SamDec008.string_matching_boyer_moore_horspool [97, 98, 97, 98, 98, 97, 98, 97, 98, 97] [97, 98, 97]
+    = .ok [0, 5, 7] := by rw [src_bmh_samdec]; rfl
+example : Gen.Src.H264.string_matching_boyer_moore_horspool [0, 0, 0, 1, 9, 0, 0, 0, 1] [0, 0, 0, 1] = .ok [0, 5] := by
+  rw [src_bmh_h264]; rfl
+/-- outside the domain (empty pattern): IndexError on the empty text; on a non-empty text the Python loop never ends
+    (`skip[...] = 0`), which the translation reports as `Err.fuel` -/
+example : Gen.Src.SamDec008.string_matching_boyer_moore_horspool [] [] = .error .index := by rw [src_bmh_samdec]; rfl
+example : Gen.Src.H264.string_matching_boyer_moore_horspool [7] [] = .error .fuel := by rw [src_bmh_h264]; rfl
 
 end Acra.Props.C17
